@@ -14,8 +14,8 @@ import (
 type inputNode struct {
 	Name   string // Go parameter name (roots only)
 	T      types.Type
-	Term   *Term       // scalar value, or nil-check for pointers, or length for slices
-	Kind   string      // scalar ptr struct slice unsupported
+	Term   *Term        // scalar value, or nil-check for pointers, or length for slices
+	Kind   string       // scalar ptr struct slice unsupported
 	Fields []*inputNode // struct fields / pointee / slice elements
 	FName  string       // field name (struct fields)
 	Value  string       // solver value (filled after solving)
